@@ -17,6 +17,35 @@ package decision
 //@   ensures[accepted_is_recorded] result ==> has(l.peers, p) && has(l.peers[p], e.Cid) && l.peers[p][e.Cid].Priority == e.Priority && l.peers[p][e.Cid].WantType == e.WantType
 //@   ensures[limit_never_exceeded] l.maxEntriesPerPeer >= 1 && old(has(l.peers, p)) && old(len(l.peers[p])) <= l.maxEntriesPerPeer ==> len(l.peers[p]) <= l.maxEntriesPerPeer
 //@   ensures[first_want_of_a_peer] l.maxEntriesPerPeer >= 1 && !old(has(l.peers, p)) && result ==> len(l.peers[p]) <= l.maxEntriesPerPeer
+// the per-CID map is the inverse of the per-peer map: whoever answers a newly arrived block looks the
+// want up by CID and must see the same entry (type and priority) the peer's own list holds
+//@   ensures[inverse_map_agrees] result ==> has(l.cids, e.Cid) && has(l.cids[e.Cid], p) && l.cids[e.Cid][p].Priority == e.Priority && l.cids[e.Cid][p].WantType == e.WantType
+//@ macro inPeers(l, p, k) = has(l.peers, p) && has(l.peers[p], k)
+//@ macro inCids(l, p, k) = has(l.cids, k) && has(l.cids[k], p)
+//@ macro ledgerAllocated(l, p, k) = l != nil && l.peers != nil && l.cids != nil && (has(l.peers, p) ==> l.peers[p] != nil) && (has(l.cids, k) ==> l.cids[k] != nil)
+//@ func (*peerLedger).removePeerFromCid
+//@   prop C36
+//@   arith int-assumed
+//@   requires ledgerAllocated(l, p, k)
+//@   modifies all
+//@   ensures[gone_from_the_inverse_map] !inCids(l, p, k)
+//@   ensures[per_peer_map_untouched] l.peers == old(l.peers) && inPeers(l, p, k) == old(inPeers(l, p, k))
+//@ func (*peerLedger).CancelWant
+//@   prop C36
+//@   arith int-assumed
+//@   requires ledgerAllocated(l, p, k)
+//@   requires[maps_agree_on_this_want] inPeers(l, p, k) == inCids(l, p, k)
+//@   modifies all
+//@   ensures[gone_from_both_maps] !inPeers(l, p, k) && !inCids(l, p, k)
+//@   ensures[reports_whether_it_was_wanted] result == old(inPeers(l, p, k))
+//@ func (*peerLedger).CancelWantWithType
+//@   prop C36
+//@   arith int-assumed
+//@   requires ledgerAllocated(l, p, k)
+//@   requires[maps_agree_on_this_want] inPeers(l, p, k) == inCids(l, p, k)
+//@   modifies all
+//@   ensures[have_cancel_keeps_a_want_block] typ == pb.Message_Wantlist_Have && old(inPeers(l, p, k)) && old(l.peers[p][k].WantType) == pb.Message_Wantlist_Block ==> inPeers(l, p, k) && inCids(l, p, k) && l.peers[p][k] == old(l.peers[p][k])
+//@   ensures[otherwise_gone_from_both_maps] !(typ == pb.Message_Wantlist_Have && old(inPeers(l, p, k)) && old(l.peers[p][k].WantType) == pb.Message_Wantlist_Block) ==> !inPeers(l, p, k) && !inCids(l, p, k)
 
 // ---- C36: overflow - wants without a local block go first, then the lowest priorities ----------
 // order in which overflowing newcomers are considered: most important first
@@ -47,3 +76,20 @@ package decision
 //@   site[denied_when_the_filter_refuses] builtin:append#1 : len(arg1) == 1 && arg1[0] == et && !et.Cancel && e.peerBlockRequestFilter != nil && !res("callfield:peerBlockRequestFilter#0", 0)
 //@   site[wants_are_permitted_and_within_the_limit] builtin:append#2 : len(arg1) == 1 && arg1[0] == et && !et.Cancel && (e.peerBlockRequestFilter == nil || res("callfield:peerBlockRequestFilter#0", 0)) && len(wants) < int(e.maxQueuedWantlistEntriesPerPeer) && cidPrefix(et.Entry.Cid).MhType != mh.IDENTITY && (e.maxCidSize == 0 || uint(res("call:ByteLen#0", 0)) <= e.maxCidSize)
 //@   site[filter_asked_about_this_peer_and_cid] callfield:peerBlockRequestFilter : arg0 == p && arg1 == et.Entry.Cid
+
+// ---- C36: what goes into an outgoing envelope ---------------------------------------------------
+// HAVE only for a block the store had when the want was queued and that was wanted as want-have;
+// DONT_HAVE for a block that was absent at intake (such a task is only queued when the peer asked
+// for DONT_HAVE) or - for a want-block whose block has been removed since - only when the peer asked
+// for DONT_HAVE; a block only when the blockstore returned it just now.
+//@ func (*Engine).nextEnvelope
+//@   prop C36
+//@   arith int-assumed
+//@   requires e != nil
+//@   modifies all
+//@   loop 2 invariant[message_stays_well_formed] wfMaps(msg)
+//@   loop 3 invariant[message_stays_well_formed] wfMaps(msg)
+//@   site[have_only_for_a_present_block_wanted_as_have] invoke:AddHave : td.HaveBlock && !td.IsWantBlock
+//@   site[dont_have_for_a_block_absent_at_intake] invoke:AddDontHave#0 : !td.HaveBlock
+//@   site[dont_have_for_a_removed_block_only_when_asked] invoke:AddDontHave#1 : blks[arg0] == nil && has(blockTasks, arg0) && blockTasks[arg0].SendDontHave
+//@   site[block_only_when_the_store_returned_it] invoke:AddBlock : arg0 != nil
